@@ -156,14 +156,15 @@ def run_case(desc, ctx):
     for variant in (['rel', 'chk'] if desc.get('chk') else ['rel']):
         b = ctx.bins[variant]
         if desc['route'] == 'skf':
-            p = G.ska_build(ctx, ctx.path('o'), files, k, True, binary=b, extra=['--threads', threads])
+            oname = 'o' if desc['seed'] % 4 else 'run.k%d' % k            # a quarter of the stored files carry a dot in their prefix
+            p = G.ska_build(ctx, ctx.path(oname), files, k, True, binary=b, extra=['--threads', threads])
             if p.returncode != 0:
                 if variant == 'chk' and 'overflow' in p.stderr:
                     res.count('chk_overflow_panics')
                     continue
                 res.violate('C03:build-failed', 'k=%d: build failed: %s' % (k, p.stderr[-200:]), {'samples': ss})
                 continue
-            names, seqs, pa = G.align_output(ctx, [ctx.path('o.skf'), '--min-freq', '1'], binary=b, stale_out=to_file)
+            names, seqs, pa = G.align_output(ctx, [ctx.path(oname + '.skf'), '--min-freq', '1'], binary=b, stale_out=to_file)
         else:
             names, seqs, pa = G.align_output(ctx, files + ['--min-freq', '1', '--threads', threads], binary=b, stale_out=to_file)
         if to_file:
